@@ -67,6 +67,9 @@ struct Case {
     backend: u8, // 0 = LocalMetadataClient, 1 = ObjectStoreMetadataClient
     grace_s: u64,
     retention_days: u32,
+    /// 0 = chunks are dummy objects and the merge threshold is out of reach; n > 0 = chunks are real
+    /// Parquet files and run_compaction_cycle really compacts groups of n L0 chunks
+    l0: u32,
     ops: Vec<Op>,
 }
 
@@ -108,7 +111,7 @@ fn op_text(o: &Op) -> String {
 }
 
 fn case_text(c: &Case) -> String {
-    let mut v = vec![format!("b={} g={} r={}", c.backend, c.grace_s, c.retention_days)];
+    let mut v = vec![format!("b={} g={} r={} l={}", c.backend, c.grace_s, c.retention_days, c.l0)];
     v.extend(c.ops.iter().map(op_text));
     v.join(";")
 }
@@ -116,7 +119,7 @@ fn case_text(c: &Case) -> String {
 fn case_parse(line: &str) -> Case {
     let mut it = line.split(';');
     let hd = it.next().unwrap_or("");
-    let mut c = Case { backend: 0, grace_s: 0, retention_days: 1, ops: vec![] };
+    let mut c = Case { backend: 0, grace_s: 0, retention_days: 1, l0: 0, ops: vec![] };
     for kv in hd.split(' ') {
         if let Some(v) = kv.strip_prefix("b=") {
             c.backend = v.parse().unwrap();
@@ -124,6 +127,8 @@ fn case_parse(line: &str) -> Case {
             c.grace_s = v.parse().unwrap();
         } else if let Some(v) = kv.strip_prefix("r=") {
             c.retention_days = v.parse().unwrap();
+        } else if let Some(v) = kv.strip_prefix("l=") {
+            c.l0 = v.parse().unwrap();
         }
     }
     for t in it {
@@ -148,11 +153,60 @@ fn case_parse(line: &str) -> Case {
     c
 }
 
+thread_local! {
+    /// names of the chunks the compactor itself created in this case (uuid paths), ids from 100
+    static INTERN: std::cell::RefCell<Vec<String>> = std::cell::RefCell::new(Vec::new());
+}
+fn intern_reset() {
+    INTERN.with(|t| t.borrow_mut().clear());
+}
+fn intern(s: &str) -> u32 {
+    INTERN.with(|t| {
+        let mut t = t.borrow_mut();
+        if let Some(i) = t.iter().position(|x| x == s) {
+            return 100 + i as u32;
+        }
+        t.push(s.to_string());
+        99 + t.len() as u32
+    })
+}
 fn pname(p: u32) -> String {
+    if p >= 100 {
+        if let Some(s) = INTERN.with(|t| t.borrow().get((p - 100) as usize).cloned()) {
+            return s;
+        }
+    }
     format!("default/data/c{}.parquet", p)
 }
 fn pid(s: &str) -> Option<u32> {
+    if let Some(i) = INTERN.with(|t| t.borrow().iter().position(|x| x == s)) {
+        return Some(100 + i as u32);
+    }
     s.strip_prefix("default/data/c")?.strip_suffix(".parquet")?.parse().ok()
+}
+fn is_compacted_path(s: &str) -> bool {
+    s.starts_with("default/data/compacted/")
+}
+
+/// a real two-row Parquet chunk whose timestamp column spans [mn, mx]
+fn parquet_chunk(mn: i64, mx: i64) -> bytes::Bytes {
+    use arrow_array::{Float64Array, RecordBatch, StringArray, TimestampNanosecondArray};
+    use arrow_schema::{DataType, Field, Schema, TimeUnit};
+    let schema = Arc::new(Schema::new(vec![
+        Field::new("timestamp", DataType::Timestamp(TimeUnit::Nanosecond, Some("UTC".into())), false),
+        Field::new("metric_name", DataType::Utf8, false),
+        Field::new("value_f64", DataType::Float64, true),
+    ]));
+    let batch = RecordBatch::try_new(
+        schema,
+        vec![
+            Arc::new(TimestampNanosecondArray::from(vec![mn, mx]).with_timezone("UTC")),
+            Arc::new(StringArray::from(vec!["cpu", "cpu"])),
+            Arc::new(Float64Array::from(vec![1.0, 2.0])),
+        ],
+    )
+    .unwrap();
+    cardinalsin::ingester::ParquetWriter::new().write_batch(&batch).unwrap()
 }
 fn set_text<I: IntoIterator<Item = u32>>(it: I) -> String {
     let mut v: Vec<u32> = it.into_iter().collect();
@@ -203,6 +257,10 @@ struct World {
     violations: Vec<(String, String)>,
     stats: BTreeMap<&'static str, u64>,
     log_cursor: usize,
+    real_chunks: bool,
+    /// (model op, implementation token) pairs for what the compactor did on its own inside a
+    /// cycle (a real compaction: registration of the merged chunk, swap + scheduling)
+    synthetic: Vec<(String, String)>,
 }
 
 fn real_now() -> i64 {
@@ -248,7 +306,8 @@ impl World {
         let mut m = BTreeMap::new();
         if let Ok(v) = self.meta.list_chunks().await {
             for e in v {
-                if let Some(p) = pid(&e.chunk_path) {
+                let p = if is_compacted_path(&e.chunk_path) { Some(intern(&e.chunk_path)) } else { pid(&e.chunk_path) };
+                if let Some(p) = p {
                     m.insert(p, (e.min_timestamp, e.max_timestamp));
                 }
             }
@@ -262,6 +321,24 @@ impl World {
         let now_cat = self.catalog_now().await;
         let gone: Vec<(u32, (i64, i64))> =
             self.live.iter().filter(|(p, _)| !now_cat.contains_key(p)).map(|(p, m)| (*p, *m)).collect();
+        let appeared: Vec<(u32, (i64, i64))> =
+            now_cat.iter().filter(|(p, _)| !self.live.contains_key(p) && **p >= 100).map(|(p, m)| (*p, *m)).collect();
+        if appeared.len() == 1 && !gone.is_empty() {
+            // a real compaction ran at the start of this cycle: merged chunk registered, sources
+            // swapped out and handed to schedule_deletion - told to the model as R + C at this instant
+            let (t, (mn, mx)) = appeared[0];
+            self.live.insert(t, (mn, mx));
+            self.synthetic.push((format!("R {} {} {}", t, mn, mx), "-".into()));
+            let srcs: Vec<u32> = gone.iter().map(|(p, _)| *p).collect();
+            for p in &srcs {
+                self.live.remove(p);
+                self.removed_at.insert(*p, self.target);
+                self.scheduled.insert(*p);
+            }
+            self.synthetic.push((format!("C {} {}", t, list_text(&srcs)), "0".into()));
+            self.bump("compaction.real");
+            return;
+        }
         let cutoff_model = self.target - self.retention_s.saturating_mul(S) - SKEW_S * S;
         for (p, (_mn, mx)) in gone {
             // the real cut-off lies in [cutoff_model, cutoff_model + drift)
@@ -347,7 +424,7 @@ impl World {
             }
             let ok = match e.info.verb {
                 "GET" | "HEAD" => true,
-                "PUT" => e.info.path == PENDING_FILE,
+                "PUT" => e.info.path == PENDING_FILE || is_compacted_path(&e.info.path),
                 "DELETE" => pid(&e.info.path).is_some(),
                 _ => false,
             };
@@ -379,7 +456,10 @@ impl World {
                     if interesting {
                         return;
                     }
-                    // loads of the pending file, reads: let them through
+                    // loads of the pending file, reads and writes of a running compaction: let them
+                    // through, but look at the catalog first - one cycle can compact several groups
+                    // (L0, then the level above), each swap is told to the model on its own
+                    self.absorb_catalog_changes().await;
                     let ctl = self.ctl.as_mut().unwrap();
                     let _ = tokio::time::timeout(Duration::from_secs(20), ctl.step(0, Action::Proceed)).await;
                 }
@@ -581,6 +661,7 @@ impl World {
 }
 
 async fn run_case(case: &Case) -> Outcome {
+    intern_reset();
     let raw = Arc::new(InMemory::new());
     let hub = Hub::new(raw.clone());
     let store0: Arc<dyn ObjectStore> = hub.client(0);
@@ -598,7 +679,7 @@ async fn run_case(case: &Case) -> Outcome {
         ))
     };
     let cfg = CompactorConfig {
-        l0_merge_threshold: 1_000_000,
+        l0_merge_threshold: if case.l0 > 0 { case.l0 as usize } else { 1_000_000 },
         gc_grace_period: Duration::from_secs(case.grace_s),
         retention_days: case.retention_days,
         sharding_enabled: false,
@@ -641,6 +722,8 @@ async fn run_case(case: &Case) -> Outcome {
         violations: vec![],
         stats: BTreeMap::new(),
         log_cursor: 0,
+        real_chunks: case.l0 > 0,
+        synthetic: vec![],
     };
     w.anchor_clock();
     let mut toks: Vec<String> = Vec::new();
@@ -650,6 +733,7 @@ async fn run_case(case: &Case) -> Outcome {
     let mut mline: Vec<String> = vec![format!("cfg {} {} {}", grace_ns, case.retention_days, t0)];
 
     for op in &case.ops {
+        let mark = mline.len();
         let tok = match op {
             Op::T(d) => {
                 // advance, never re-anchor: the real time that has passed since the start of the
@@ -662,7 +746,8 @@ async fn run_case(case: &Case) -> Outcome {
             Op::R { p, mn, mx } => {
                 let (a, b) = (w.abs(mn), w.abs(mx));
                 let path = pname(*p);
-                let _ = w.raw.put(&path.clone().into(), bytes::Bytes::from_static(b"x").into()).await;
+                let body = if w.real_chunks { parquet_chunk(a, b) } else { bytes::Bytes::from_static(b"x") };
+                let _ = w.raw.put(&path.clone().into(), body.into()).await;
                 let m = ChunkMetadata { path: path.clone(), min_timestamp: a, max_timestamp: b, row_count: 1, size_bytes: 1 };
                 let r = w.meta.register_chunk(&path, &m).await;
                 if r.is_ok() {
@@ -691,6 +776,10 @@ async fn run_case(case: &Case) -> Outcome {
             }
             Op::GF => {
                 w.begin_cycle().await;
+                for (m, t) in std::mem::take(&mut w.synthetic) {
+                    mline.push(m);
+                    toks.push(t);
+                }
                 mline.push("GF".into());
                 "-".to_string()
             }
@@ -718,14 +807,25 @@ async fn run_case(case: &Case) -> Outcome {
             }
             Op::G => {
                 w.begin_cycle().await;
+                for (m, t) in std::mem::take(&mut w.synthetic) {
+                    mline.push(m);
+                    toks.push(t);
+                }
                 w.finish_cycle().await;
                 mline.push("G".into());
                 w.observe().await
             }
             Op::RS => {
+                // new Compactor; `run` loads the file, then starts its first cycle at once
                 w.restart().await;
                 w.bump("restart");
                 mline.push("RS".into());
+                toks.push("-".into());
+                for (m, t) in std::mem::take(&mut w.synthetic) {
+                    mline.push(m);
+                    toks.push(t);
+                }
+                mline.push("GF".into());
                 "-".to_string()
             }
             Op::PQ { q, s, e } => {
@@ -784,6 +884,12 @@ async fn run_case(case: &Case) -> Outcome {
             }
         };
         toks.push(tok);
+        let _ = mark;
+        if !w.synthetic.is_empty() {
+            // a compaction can only start at the head of a cycle
+            w.violate("", "the catalog was changed by the compactor outside the head of a cycle".into());
+            w.synthetic.clear();
+        }
         w.check_drift();
     }
     // leave nothing running
@@ -821,13 +927,209 @@ fn run_checked(rt: &tokio::runtime::Runtime, model: &mut Model, case: &Case) -> 
     (out, body, flag)
 }
 
+// ------------------------------------------------- real query bracket ----
+/// One scenario with a real QueryNode (DataFusion) sharing the pin registry with the
+/// compactor: the query is stopped at an object-store read of its chunk files, the chunk is
+/// swapped out of the catalog and a whole GC cycle (grace 0) runs; the file must survive until the
+/// query has finished, and go in the cycle after.  Returns (case text, impl tokens, model line,
+/// violations, trace for the report).
+async fn run_query_scenario(backend: u8) -> (String, String, String, Vec<(String, String)>, Vec<String>) {
+    use cardinalsin::query::{QueryConfig, QueryNode};
+    intern_reset();
+    let mut violations: Vec<(String, String)> = Vec::new();
+    let mut trace: Vec<String> = Vec::new();
+    let raw = Arc::new(InMemory::new());
+    let hub = Hub::new(raw.clone());
+    let store0: Arc<dyn ObjectStore> = hub.client(0);
+    let storeq: Arc<dyn ObjectStore> = hub.client(2);
+    let meta: Arc<dyn MetadataClient> = if backend == 0 {
+        Arc::new(LocalMetadataClient::new())
+    } else {
+        Arc::new(ObjectStoreMetadataClient::new(
+            hub.client(1),
+            ObjectStoreMetadataConfig { bucket: "b".into(), metadata_prefix: "metadata/".into(), enable_cache: true, allow_unsafe_overwrite: false },
+        ))
+    };
+    let registry = ChunkPinRegistry::new();
+    let cfg = CompactorConfig {
+        l0_merge_threshold: 1_000_000,
+        gc_grace_period: Duration::from_secs(0),
+        retention_days: 90,
+        sharding_enabled: false,
+        check_interval: Duration::from_secs(365 * 86_400),
+        ..Default::default()
+    };
+    let t0 = (real_now() / S) * S + S / 2;
+    verif_hooks::set_clock_offset_nanos(t0 - real_now());
+    let compactor = Arc::new(
+        Compactor::new(cfg, store0.clone(), meta.clone(), Default::default(), Arc::new(ShardMonitor::new(HotShardConfig::default())))
+            .with_pin_registry(registry.clone()),
+    );
+    let base = t0 - S / 2;
+    let bounds = [(1u32, base - 40 * S, base - 30 * S), (2u32, base - 40 * S, base - 20 * S)];
+    let mut mline = vec![format!("cfg 0 90 {}", t0)];
+    let mut toks: Vec<String> = Vec::new();
+    for (p, a, b) in bounds {
+        let path = pname(p);
+        let _ = raw.put(&path.clone().into(), parquet_chunk(a, b).into()).await;
+        let m = ChunkMetadata { path: path.clone(), min_timestamp: a, max_timestamp: b, row_count: 2, size_bytes: 1 };
+        let _ = meta.register_chunk(&path, &m).await;
+        mline.push(format!("R {} {} {}", p, a, b));
+        toks.push("-".into());
+    }
+    let qn = match QueryNode::new(QueryConfig::default(), storeq, meta.clone(), Default::default()).await {
+        Ok(q) => Arc::new(q.with_pin_registry(registry.clone())),
+        Err(e) => {
+            violations.push(("".into(), format!("QueryNode::new failed: {}", e)));
+            return ("query-scenario".into(), String::new(), String::new(), violations, trace);
+        }
+    };
+    let observe = |del: Vec<u32>| {
+        let raw = raw.clone();
+        let meta = meta.clone();
+        async move {
+            use futures::StreamExt;
+            let mut cat: Vec<u32> = meta.list_chunks().await.unwrap_or_default().iter().filter_map(|e| pid(&e.chunk_path)).collect();
+            cat.sort();
+            let mut obj = Vec::new();
+            let mut st = raw.list(None);
+            while let Some(Ok(m)) = st.next().await {
+                if let Some(p) = pid(m.location.as_ref()) {
+                    obj.push(p);
+                }
+            }
+            let mut disk = Vec::new();
+            if let Ok(r) = raw.get(&PENDING_FILE.to_string().into()).await {
+                if let Ok(b) = r.bytes().await {
+                    if let Ok(serde_json::Value::Array(a)) = serde_json::from_slice::<serde_json::Value>(&b) {
+                        for e in a {
+                            disk.push(format!("{}@0", e["path"].as_str().and_then(pid).unwrap_or(999_999)));
+                        }
+                    }
+                }
+            }
+            disk.sort();
+            format!("del={}|ret=|cat={}|obj={}|disk={}", set_text(del), set_text(cat), set_text(obj), disk.join(","))
+        }
+    };
+    // the query, one object-store request at a time
+    let mut ctl = hub.attach(&[2]);
+    let q2 = qn.clone();
+    let hub2 = hub.clone();
+    let qtask = tokio::spawn(async move {
+        let r = q2.query("SELECT COUNT(*) AS n FROM metrics").await;
+        hub2.note(2, "query-done".into());
+        r
+    });
+    let both_pinned = |reg: &ChunkPinRegistry| reg.is_pinned(&pname(1)) && reg.is_pinned(&pname(2));
+    let mut stopped_pinned = false;
+    let mut steps = 0;
+    loop {
+        steps += 1;
+        if steps > 500 {
+            violations.push(("".into(), "query does not finish".into()));
+            break;
+        }
+        let r = tokio::time::timeout(Duration::from_secs(30), ctl.wait_for(2)).await;
+        match r {
+            Err(_) => {
+                violations.push(("".into(), "query makes no progress (timeout)".into()));
+                break;
+            }
+            Ok(None) => break,
+            Ok(Some(info)) => {
+                let pinned = both_pinned(&registry);
+                trace.push(format!("{} {} pinned={}", info.verb, info.path, pinned));
+                if pinned && pid(&info.path).is_some() {
+                    stopped_pinned = true;
+                    break;
+                }
+                let _ = tokio::time::timeout(Duration::from_secs(30), ctl.step(2, Action::Proceed)).await;
+            }
+        }
+    }
+    mline.push(format!("PQ 1 {} {}", t0 - 3600 * S, t0));
+    if stopped_pinned {
+        toks.push("got=1,2".into());
+    } else {
+        toks.push("got=".into());
+        violations.push(("".into(), "the query read its chunk files from the object store without holding them pinned".into()));
+    }
+    // swap chunk 1 out and run a whole cycle while the query is stopped in its read
+    let names = vec![pname(1)];
+    let r = meta.complete_compaction(&names, &pname(2)).await;
+    if r.is_ok() {
+        compactor.schedule_deletion(&names[0]);
+    }
+    mline.push("C 2 1".into());
+    toks.push(if r.is_ok() { "0".into() } else { "1".into() });
+    let log0 = hub.log.lock().unwrap().len();
+    let _ = compactor.run_compaction_cycle().await;
+    let dels = |from: usize| -> Vec<u32> {
+        hub.log.lock().unwrap().iter().skip(from).filter(|e| e.info.client == 0 && e.info.verb == "DELETE").filter_map(|e| pid(&e.info.path)).collect()
+    };
+    let d1 = dels(log0);
+    if stopped_pinned && d1.contains(&1) {
+        violations.push(("".into(), "chunk 1 deleted while a running query (QueryNode) holds it pinned".into()));
+    }
+    mline.push("G".into());
+    toks.push(observe(d1).await);
+    // let the query finish
+    let mut fin = 0;
+    loop {
+        fin += 1;
+        if fin > 500 {
+            break;
+        }
+        match tokio::time::timeout(Duration::from_secs(30), ctl.wait_for(2)).await {
+            Ok(Some(info)) => {
+                trace.push(format!("{} {} pinned={}", info.verb, info.path, both_pinned(&registry)));
+                let _ = tokio::time::timeout(Duration::from_secs(30), ctl.step(2, Action::Proceed)).await;
+            }
+            _ => break,
+        }
+    }
+    hub.detach();
+    let res = tokio::time::timeout(Duration::from_secs(30), qtask).await;
+    let rows: Option<i64> = match res {
+        Ok(Ok(Ok(batches))) => {
+            use arrow_array::cast::AsArray;
+            batches.first().and_then(|b| b.column(0).as_primitive_opt::<arrow_array::types::Int64Type>().map(|a| a.value(0)))
+        }
+        _ => None,
+    };
+    trace.push(format!("query result rows = {:?}", rows));
+    mline.push("U 1".into());
+    if rows == Some(4) {
+        toks.push("miss=".into());
+    } else {
+        toks.push(format!("miss=ERR({:?})", rows));
+        violations.push(("".into(), format!("the query that held its chunks pinned did not get its 4 rows: {:?}", rows)));
+    }
+    if registry.is_pinned(&pname(1)) || registry.is_pinned(&pname(2)) {
+        violations.push(("".into(), "chunks still pinned after the query finished".into()));
+    }
+    let log1 = hub.log.lock().unwrap().len();
+    let _ = compactor.run_compaction_cycle().await;
+    mline.push("G".into());
+    toks.push(observe(dels(log1)).await);
+    verif_hooks::set_clock_offset_nanos(0);
+    (format!("query-scenario b={}", backend), toks.join(";"), mline.join(";"), violations, trace)
+}
+
 // ------------------------------------------------------------ generator ----
 fn gen_case(rng: &mut Rng, report: &mut Report) -> Case {
     let backend = if rng.chance(1, 3) { 1 } else { 0 };
     // extreme settings: grace periods chrono cannot represent (the code used to fall back to
     // 300 s) or that reach before the representable past (used to panic); retention periods
     // whose nanoseconds overflow an i64 (used to panic / wrap)
-    let extreme = rng.chance(1, 14);
+    // one case in seven lets run_compaction_cycle really compact: real Parquet chunks that share
+    // an hour bucket, merge threshold 2 or 3
+    let l0: u32 = if rng.chance(1, 7) { *rng.pick(&[2u32, 2, 3]) } else { 0 };
+    if l0 > 0 {
+        report.bump("gen.real_compaction_case");
+    }
+    let extreme = l0 == 0 && rng.chance(1, 14);
     let grace_s = if extreme && rng.chance(1, 2) {
         report.bump("cfg.extreme_grace");
         *rng.pick(&[u64::MAX, 400_000 * 365 * 86_400, (i64::MAX / 1000) as u64 + 1, 9_000_000_000])
@@ -840,6 +1142,9 @@ fn gen_case(rng: &mut Rng, report: &mut Report) -> Case {
     } else {
         *rng.pick(&[0u32, 1, 1, 2, 90])
     };
+    // with real compactions the rows (50 s old) must stay inside the retention window: a merged
+    // chunk that the same cycle's retention pass expires again is never visible to the harness
+    let retention_days = if l0 > 0 && retention_days == 0 { 1 } else { retention_days };
     report.bump(&format!("cfg.grace={}", grace_s));
     report.bump(&format!("cfg.retention_days={}", retention_days));
     report.bump(if backend == 0 { "backend.local" } else { "backend.object_store" });
@@ -871,6 +1176,10 @@ fn gen_case(rng: &mut Rng, report: &mut Report) -> Case {
     let chunk_bounds = |rng: &mut Rng, elapsed: i64, report: &mut Report| -> (Ts, Ts) {
         let cut = elapsed - r_s - SKEW_S; // whole seconds, relative
         let near = cut + rng.range_i64(0, 6); // cut-offs of the next few ticks
+        if l0 > 0 {
+            // fresh rows, same minimum => same L0 hour group
+            return (Ts::Rel(-50), Ts::Rel(-50 + rng.range_i64(0, 40)));
+        }
         match rng.below(12) {
             0 => (Ts::Rel(near - 100), Ts::Rel(near - 1)),  // just old
             1 => (Ts::Rel(near - 100), Ts::Rel(near)),      // newest row at the cut-off
@@ -992,7 +1301,7 @@ fn gen_case(rng: &mut Rng, report: &mut Report) -> Case {
     }
     ops.push(Op::G);
     ops.push(Op::O);
-    Case { backend, grace_s, retention_days, ops }
+    Case { backend, grace_s, retention_days, l0, ops }
 }
 
 /// Proof-derived corner cases that always run first.
@@ -1007,6 +1316,7 @@ fn corpus() -> Vec<Case> {
             backend,
             grace_s: 300,
             retention_days: 1,
+            l0: 0,
             ops: vec![
                 Op::R { p: 1, mn: rel(cut - 10 * DAY_S), mx: rel(cut - DAY_S) },
                 Op::R { p: 2, mn: rel(cut - DAY_S), mx: rel(cut + 80 * DAY_S) },
@@ -1028,6 +1338,7 @@ fn corpus() -> Vec<Case> {
             backend,
             grace_s: 5,
             retention_days: 90,
+            l0: 0,
             ops: vec![
                 Op::R { p: 1, mn: rel(-10), mx: rel(-5) },
                 Op::R { p: 2, mn: rel(-10), mx: rel(-5) },
@@ -1045,6 +1356,7 @@ fn corpus() -> Vec<Case> {
             backend,
             grace_s: 0,
             retention_days: 90,
+            l0: 0,
             ops: vec![
                 Op::R { p: 1, mn: rel(-10), mx: rel(-5) },
                 Op::R { p: 2, mn: rel(-10), mx: rel(0) },
@@ -1062,6 +1374,7 @@ fn corpus() -> Vec<Case> {
             backend,
             grace_s: 0,
             retention_days: 90,
+            l0: 0,
             ops: vec![
                 Op::R { p: 1, mn: rel(-10), mx: rel(-5) },
                 Op::R { p: 2, mn: rel(-10), mx: rel(0) },
@@ -1078,6 +1391,7 @@ fn corpus() -> Vec<Case> {
             backend,
             grace_s: 5,
             retention_days: 90,
+            l0: 0,
             ops: vec![
                 Op::R { p: 1, mn: rel(-10), mx: rel(-5) },
                 Op::R { p: 2, mn: rel(-10), mx: rel(-5) },
@@ -1099,6 +1413,7 @@ fn corpus() -> Vec<Case> {
             backend,
             grace_s: 0,
             retention_days: 90,
+            l0: 0,
             ops: vec![
                 Op::R { p: 1, mn: rel(-10), mx: rel(-5) },
                 Op::R { p: 2, mn: rel(-10), mx: rel(0) },
@@ -1113,6 +1428,7 @@ fn corpus() -> Vec<Case> {
             backend,
             grace_s: 0,
             retention_days: 0,
+            l0: 0,
             ops: vec![
                 Op::R { p: 1, mn: rel(-100), mx: rel(-31) },
                 Op::R { p: 2, mn: rel(-100), mx: rel(-30) },
@@ -1125,6 +1441,116 @@ fn corpus() -> Vec<Case> {
                 Op::O,
             ],
         });
+        // a real compaction inside the cycle: sources scheduled at the swap, deleted one grace
+        // period later and not before; the merged chunk stays
+        v.push(Case {
+            backend,
+            grace_s: 5,
+            retention_days: 90,
+            l0: 2,
+            ops: vec![
+                Op::R { p: 1, mn: rel(-50), mx: rel(-40) },
+                Op::R { p: 2, mn: rel(-50), mx: rel(-30) },
+                Op::G,
+                Op::T(4),
+                Op::G,
+                Op::T(1),
+                Op::GF,
+                Op::GD,
+                Op::GP,
+                Op::O,
+            ],
+        });
+        // ... with grace 0 the same cycle that compacts also deletes; a pin taken before protects
+        v.push(Case {
+            backend,
+            grace_s: 0,
+            retention_days: 90,
+            l0: 2,
+            ops: vec![
+                Op::R { p: 1, mn: rel(-50), mx: rel(-40) },
+                Op::R { p: 2, mn: rel(-50), mx: rel(-30) },
+                Op::PQ { q: 1, s: rel(-45), e: rel(-35) },
+                Op::G,
+                Op::U { q: 1 },
+                Op::RS,
+                Op::GP,
+                Op::O,
+            ],
+        });
+        // settings at the edge of what chrono / i64 can hold: nothing may be deleted or expired
+        for (g, r) in [(u64::MAX, 90u32), (400_000 * 365 * 86_400, 90), (300, 200_000), (300, u32::MAX), (0, 106_752)] {
+            v.push(Case {
+                backend,
+                grace_s: g,
+                retention_days: r,
+                l0: 0,
+                ops: vec![
+                    Op::R { p: 1, mn: rel(-10), mx: rel(-5) },
+                    Op::R { p: 2, mn: rel(-3600), mx: rel(0) },
+                    Op::R { p: 3, mn: rel(-200 * DAY_S), mx: rel(-100 * DAY_S) },
+                    Op::C { tgt: 2, srcs: vec![1] },
+                    Op::T(301),
+                    Op::G,
+                    Op::T(301),
+                    Op::G,
+                    Op::O,
+                ],
+            });
+        }
+    }
+    v
+}
+
+/// Every interleaving of one query bracket (pin ... read+unpin) with one GC pass over two
+/// expired paths (filter, delete, delete, persist), for each pin set and backend.
+fn interleavings() -> Vec<Case> {
+    fn merge(a: &[Op], b: &[Op], acc: &mut Vec<Op>, out: &mut Vec<Vec<Op>>) {
+        if a.is_empty() && b.is_empty() {
+            out.push(acc.clone());
+            return;
+        }
+        if let Some((x, r)) = a.split_first() {
+            acc.push(x.clone());
+            merge(r, b, acc, out);
+            acc.pop();
+        }
+        if let Some((x, r)) = b.split_first() {
+            acc.push(x.clone());
+            merge(a, r, acc, out);
+            acc.pop();
+        }
+    }
+    let rel = Ts::Rel;
+    let mut v = Vec::new();
+    for backend in [0u8, 1] {
+        for ps in [vec![1u32], vec![2], vec![1, 2]] {
+            for fresh in [false, true] {
+                let gc = vec![Op::GF, Op::GD, Op::GD, Op::GP];
+                let q = if fresh {
+                    vec![Op::PQ { q: 1, s: rel(-20), e: rel(10) }, Op::U { q: 1 }]
+                } else {
+                    vec![Op::P { q: 1, ps: ps.clone() }, Op::U { q: 1 }]
+                };
+                if fresh && ps.len() != 2 {
+                    continue;
+                }
+                let mut outs = Vec::new();
+                merge(&gc, &q, &mut Vec::new(), &mut outs);
+                for mid in outs {
+                    let mut ops = vec![
+                        Op::R { p: 1, mn: rel(-10), mx: rel(-5) },
+                        Op::R { p: 2, mn: rel(-10), mx: rel(-5) },
+                        Op::R { p: 3, mn: rel(-10), mx: rel(0) },
+                        Op::C { tgt: 3, srcs: vec![1, 2] },
+                        Op::T(2),
+                    ];
+                    ops.extend(mid);
+                    ops.extend([Op::T(2), Op::G, Op::O]);
+                    v.push(Case { backend, grace_s: 2, retention_days: 90, l0: 0, ops });
+                }
+            }
+        }
     }
     v
 }
@@ -1158,9 +1584,33 @@ fn main() {
     let n_random = if args.thorough() { 12_000 } else { 900 };
     let mut rng = Rng::new(args.seed);
     let mut cases: Vec<(&'static str, Case)> = corpus().into_iter().map(|c| ("corpus", c)).collect();
+    cases.extend(interleavings().into_iter().map(|c| ("interleaving", c)));
     for _ in 0..n_random {
         let mut r = rng.fork();
         cases.push(("random", gen_case(&mut r, &mut report)));
+    }
+
+    // the real query bracket (QueryNode + DataFusion), both backends
+    for backend in [0u8, 1] {
+        let (name, impl_out, mline, viol, trace) = rt.block_on(run_query_scenario(backend));
+        report.case(Some(&name));
+        report.impl_runs += 1;
+        report.bump("origin.query_scenario");
+        let m = model.ask(&mline);
+        let mbody = m.split_once("#K=").map(|(b, _)| b.to_string()).unwrap_or(m.clone());
+        if args.get("trace").is_some() {
+            eprintln!("{}\n  impl : {}\n  model: {}\n  {}", name, impl_out, mbody, trace.join("\n  "));
+        }
+        if !model.is_null() && mbody != impl_out {
+            report.disagreement(json!({
+                "correspondence": "query bracket of QueryNode::query_for_tenant + GC cycle vs Model/Gc.v",
+                "case": name, "impl": impl_out, "model": mbody, "shrunk": name, "trace": trace,
+                "oracle_failed": !viol.is_empty(),
+            }));
+        }
+        for (class, what) in viol {
+            report.oracle_violation(&class, &what, json!({"case": name, "trace": trace}));
+        }
     }
 
     let mut timing_skips = 0u64;
